@@ -50,7 +50,7 @@ def native_plan(tier):
         ('union_internal_step_le3', state_alpha(3) + ';0-2;0-2', 'every INV state of <= 3 elements x every (x, y)'),
         ('uf_state_sweep', '1-4', 'every INV state of exactly 1..4 elements (pruned enumeration: 1 + 7 + 223 + 21361 states) x every argument of find, union_internal, union, push, class iterator'),
         ('uf_history_le4', ';'.join(['0-24'] * 4), 'every history of <= 4 operations {add, find_item, union_add, union_add_clone} over 3 items'),
-        ('trrel_uf_history_le4', ';'.join(['0-16'] * 4), 'every history of <= 4 add(x, y) over 4 items (incl. self pairs, repeats, back edges)'),
+        ('trrel_uf_history_le5', ';'.join(['0-16'] * 5), 'every history of <= 5 add(x, y) over 4 items (incl. self pairs, repeats, back edges)'),
     ]
     if tier == 'thorough':
         plan += [
